@@ -1491,6 +1491,149 @@ Proof.
   apply (no_fault_suffix _ _ (ac_ws _ _ _ _ _ _ _ A) Hnf).
 Qed.
 
+(* ---- the handler's view: what holds between its operations ---- *)
+Definition HS (r : rstate) (w : world) : Prop :=
+  pinv (rsp r) /\ bytes_ok (remaining w) /\ no_fault (wscript w) /\ inv2 r w [] /\ wl r w.
 
+Lemma HS_world r w w' : remaining w' = remaining w -> wscript w' = wscript w -> wlog w' = wlog w -> segs w' = segs w ->
+  HS r w -> HS r w'.
+Proof.
+  intros Q1 Q2 Q3 Q4 (H1 & H2 & H3 & H4 & H5). unfold HS, inv2, wl in *. rewrite Q1, Q2, Q3, Q4. tauto.
+Qed.
+
+Lemma HS_ev r w e : HS r w -> HS r (w_ev w e).
+Proof. apply HS_world; reflexivity. Qed.
+
+Lemma await_input_hs fuel dest r w : HS r w ->
+  match await_input maxc fuel dest r w with
+  | Ok (_, r') w' => HS r' w'
+  | Halt o _ => o <> ODeadlock
+  end.
+Proof.
+  intros (H1 & H2 & H3 & H4 & H5).
+  pose proof (await_input_nd fuel dest r w H1 H2 H3 H4 (or_introl H5)) as ND.
+  pose proof (await_input_keeps fuel dest r w) as KP.
+  destruct (await_input maxc fuel dest r w) as [[x r'] w'|o w']; [|exact ND].
+  destruct (KP x r' w' H1 H2 H3 eq_refl) as (K1 & K2 & K3). destruct ND as [N1 N2].
+  split; [exact K1|]. split; [exact K2|]. split; [exact K3|]. split; assumption.
+Qed.
+
+Lemma consume_hs r w c wr lk ab : HS r w -> HS (mkR (consume_stream (rsp r) c) wr lk ab) w.
+Proof.
+  intros ([HRI HI0] & H2 & H3 & H4 & [H5 H6]). pose proof (consume_stream_abs (rsp r) c HRI) as CA.
+  split; [split; [apply consume_stream_RI; exact HRI|cbn [rsp]; rewrite CA; apply consume_stream_inv; exact HI0]|].
+  split; [exact H2|]. split; [exact H3|]. split.
+  - unfold inv2, SQ in *. cbn [rsp]. rewrite CA. cbn [aconsume_stream a_st a_prem a_pad a_raw a_out]. exact H4.
+  - split; [exact H5|]. cbn [rsp]. pose proof (f_equal a_out CA) as Eo. cbn [abs aconsume_stream a_out] in Eo. rewrite Eo. exact H6.
+Qed.
+
+Lemma set_stream_hs r w s p' wr lk ab : HS r w -> set_stream (rsp r) s = SetOk p' -> HS (mkR p' wr lk ab) w.
+Proof.
+  intros (Hinv & Hrem & Hnf & HI & HWL) E.
+  destruct (set_stream_step maxc (rsp r) s p' Hinv E) as (I1 & _ & _ & Eo & _).
+  split; [exact I1|]. split; [exact Hrem|]. split; [exact Hnf|]. split.
+  - destruct Hinv as [HRI _]. pose proof (set_stream_refines (rsp r) s HRI) as SR. rewrite E in SR.
+    destruct (aset_stream (abs (rsp r)) s) as [a1| |] eqn:EA; try contradiction. destruct SR as [_ A1].
+    unfold inv2, SQ in *. cbn [rsp]. rewrite A1. unfold aset_stream in EA.
+    destruct (accepts (r_role (a_req (abs (rsp r)))) (a_stream (abs (rsp r))) s) as [[|]|]; try discriminate EA.
+    destruct (optN_eqb s (a_stream (abs (rsp r)))); injection EA as <-; [exact HI|].
+    cbn [abs a_st a_prem a_pad a_raw a_out] in HI |- *. destruct (sst (rsp r)); exact HI.
+  - split; [apply HWL|]. cbn [rsp]. rewrite Eo. apply HWL.
+Qed.
+
+Lemma do_writeable_hs r w : HS r w ->
+  match do_writeable maxc r w with
+  | Ok (_, r') w' => HS r' w'
+  | Halt o _ => o <> ODeadlock
+  end.
+Proof.
+  intros H. unfold do_writeable. destruct (rwriteable r); [exact H|].
+  destruct (set_stream (rsp r) _) as [p'| |] eqn:E; [|discriminate|discriminate].
+  pose proof (await_input_hs (io_fuel w 0) None _ w (set_stream_hs r w _ p' false (rlock r) (raborted r) H E)) as A.
+  destruct (await_input maxc (io_fuel w 0) None (mkR p' false (rlock r) (raborted r)) w) as [[[x|k] r'] w'|o w']; exact A.
+Qed.
+
+Lemma read_all_hs : forall fuel acc r w, HS r w ->
+  match read_all maxc fuel acc r w with
+  | Ok (_, r') w' => HS r' w'
+  | Halt o _ => o <> ODeadlock
+  end.
+Proof.
+  induction fuel as [|f IH]; intros acc r w H; [cbn [read_all]; discriminate|]. cbn [read_all].
+  pose proof (await_input_hs (io_fuel w 0) (Some 64) r w H) as A.
+  destruct (await_input maxc (io_fuel w 0) (Some 64) r w) as [[[[n b]|k] r'] w'|o w']; [|exact A|exact A].
+  destruct (n =? 0); [exact A|]. apply IH. exact A.
+Qed.
+
+Lemma stream_records_F stype id data : wholeF (stream_records stype id data).
+Proof.
+  rewrite stream_records_enc. exists (map (chunk_rcd stype id) (chunks data)). split; [|reflexivity].
+  pose proof (chunks_sizes data) as Hs. rewrite Forall_forall in *. intros r Hr. apply in_map_iff in Hr.
+  destruct Hr as (c & <- & Hc). specialize (Hs c Hc). unfold rcd_fr, chunk_rcd. cbn [rbody rpad]. rewrite len_zeros.
+  pose proof (auto_padding_lt (len c)). lia.
+Qed.
+
+(* the handler's own output: complete records appended to the log *)
+Lemma log_hs r w w' x : io_rel w w' x -> wholeF x -> HS r w -> HS r w'.
+Proof.
+  intros (Hsame & Hlog & Hsuf & _) Hx (H1 & H2 & H3 & H4 & [H5 H6]). unfold wlog_ext in Hlog.
+  split; [exact H1|]. split; [rewrite (same_but_io_remaining _ _ Hsame); exact H2|].
+  split; [apply (no_fault_suffix _ _ Hsuf H3)|]. assert (Hsegs : segs w' = segs w) by apply Hsame. split.
+  - unfold inv2, SQ in *. rewrite Hlog, Hsegs. apply Q_log; assumption.
+  - split; [rewrite Hlog; apply wholeF_app; assumption|exact H6].
+Qed.
+
+Lemma writer_hs fuel stype id data r w : HS r w ->
+  match writer_write_all fuel stype id data w with
+  | Ok None w' => HS r w'
+  | Ok (Some _) _ => False
+  | Halt o _ => o <> ODeadlock
+  end.
+Proof.
+  intros H. pose proof (writer_write_all_spec fuel stype id data w) as S.
+  destruct (writer_write_all fuel stype id data w) as [[k|] w'|o w']; cbn [wspec] in S.
+  - destruct S as (_ & Hn & _). apply Hn. apply H.
+  - apply (log_hs r w w' _ S (stream_records_F stype id data) H).
+  - destruct o; try contradiction; discriminate.
+Qed.
+
+Lemma run_handler_hs strict role cur script : script_ok strict role cur script ->
+  forall f r w, HS r w ->
+  match run_handler maxc f script r w with
+  | Ok (_, r') w' => HS r' w'
+  | Halt o _ => o <> ODeadlock
+  end.
+Proof.
+  induction 1 as [cur|cur n rest H IH|cur rest H IH|cur k rest H IH|cur s rest Hacc H IH|cur rest H IH
+                  |cur s n rest H IH|cur s rest H IH|cur d c rest Hd|cur k rest|cur n rest H IH];
+    intros f r w HSr; (destruct f as [|f]; [cbn [run_handler]; discriminate|]); cbn [run_handler].
+  - apply HS_ev, HSr.
+  - pose proof (await_input_hs (io_fuel w 0) (Some n) r w HSr) as A.
+    destruct (await_input maxc (io_fuel w 0) (Some n) r w) as [[[[c b]|k] r1] w1|o w1]; [| |exact A];
+      apply IH; apply HS_ev, HS_ev, A.
+  - match goal with |- context [read_all maxc ?fu [] r w] => pose proof (read_all_hs fu [] r w HSr) as A;
+      destruct (read_all maxc fu [] r w) as [[[k acc] r1] w1|o w1] end; [|exact A].
+    apply IH. apply HS_ev, HS_ev, A.
+  - pose proof (await_input_hs (io_fuel w 0) None r w HSr) as A.
+    destruct (await_input maxc (io_fuel w 0) None r w) as [[[[c b]|e] r1] w1|o w1]; [| |exact A].
+    + apply IH. apply HS_ev, HS_ev. apply consume_hs. exact A.
+    + apply IH. apply HS_ev, HS_ev, A.
+  - destruct (set_stream (rsp r) (Some s)) as [p'| |] eqn:E; [|discriminate|discriminate].
+    apply IH. apply HS_ev. apply (set_stream_hs r w (Some s) p' _ _ _ HSr E).
+  - pose proof (do_writeable_hs r w HSr) as A.
+    destruct (do_writeable maxc r w) as [[e r1] w1|o w1]; [|exact A]. apply IH. apply HS_ev, A.
+  - destruct (negb (rwriteable r)); [apply IH; apply HS_ev, HSr|].
+    pose proof (writer_hs (N.to_nat (n / 65535) + 2) s (r_id (sreq (rsp r))) (take n rest) r w HSr) as A.
+    destruct (writer_write_all (N.to_nat (n / 65535) + 2) s (r_id (sreq (rsp r))) (take n rest) w) as [[k|] w1|o w1];
+      [contradiction| |exact A].
+    apply IH. apply HS_ev, A.
+  - destruct (rwriteable r); apply IH; apply HS_ev, HSr.
+  - apply HS_ev, HSr.
+  - apply HS_ev, HSr.
+  - pose proof (await_input_hs (io_fuel w 0) (Some n) r w HSr) as A.
+    destruct (await_input maxc (io_fuel w 0) (Some n) r w) as [[[[c b]|k] r1] w1|o w1]; [| |exact A].
+    + apply IH. apply HS_ev, HS_ev, A.
+    + apply HS_ev, HS_ev, A.
+Qed.
 
 End Layers.
